@@ -301,9 +301,9 @@ def baseline_fd(case, ctx):
                     d1 = (f(np.where(tiny, h, 0.0)) - e0) / h
                     d2 = (f(np.where(tiny, h / 2, 0.0)) - e0) / (h / 2)
                     dfd = (2 * d2 - d1)[tiny]
-                    # round-off of the one-sided differences: ~ 20 eps |e| / h per sample
+                    # round-off of the extrapolated one-sided differences: up to ~ 200 eps |e| / h per sample (measured 4.7e-10 at |e| = 2e-3)
                     ctx.close(de[s, i][tiny], dfd, ("native", code, "row1", "vanishing_s2"), rtol=1e-2,
-                              atol=float(np.max(5e-15 * np.abs(e0[tiny]) / h)) + 1e-9 * float(np.max(np.abs(e0))) + 1e-300, s2=X0[s, i][tiny])
+                              atol=float(np.max(5e-14 * np.abs(e0[tiny]) / h)) + 1e-9 * float(np.max(np.abs(e0))) + 1e-300, s2=X0[s, i][tiny])
         return
     code, mode = case["libxc"], case["mode"]
     ctx.event("libxc=%s/%s/nspin%d" % (code, mode, nspin))
@@ -314,6 +314,11 @@ def baseline_fd(case, ctx):
     res = kb._get_baseline(code, rt)
     ctx.nontrivial([code, mode, nspin])
     names = ["vrho", "vsigma", "vtau"]
+    # opposite-spin codes are (total - same-spin): absolute floor 2e-8 of the total functional's potential (see model_fd)
+    floor = None
+    if code.startswith("OS_"):
+        tot = kb._get_baseline(code[3:], rt)
+        floor = [2e-8 * np.abs(np.asarray(tot[1 + t], dtype=float)) for t in range(len(res) - 1)]
     for t in range(len(res) - 1):
         for c in range(rt[t].shape[0]):
             if mode == "SEP" and nspin == 2 and t == 1 and c == 1:
@@ -328,4 +333,7 @@ def baseline_fd(case, ctx):
                 return e.sum(0) if e.ndim == 2 else e
 
             h = 1e-4 * np.maximum(np.abs(rt[t][c]), 1e-8)
-            fd_check_vec(ctx, f, res[1 + t][c], ("libxc", code, mode, names[t]), h, rtol=1e-6, comp=c, nspin=nspin)
+            fl = 0.0
+            if floor is not None and np.shape(floor[t]) == np.shape(res[1 + t]):
+                fl = floor[t][c]
+            fd_check_vec(ctx, f, res[1 + t][c], ("libxc", code, mode, names[t]), h, rtol=1e-6, atol=fl, comp=c, nspin=nspin)
